@@ -219,6 +219,10 @@ def random_items(ctx, n, simple_ratio=(1, 2), mutated=True):
 # C07
 
 
+# identifiers of the generated K1 inputs (they reach the output as user tokens, not as names the expansion writes)
+HYG_INPUT_WORDS = set("a b c f g h q v x y z p mk foo flag field init inner unwrap iter map conv u8 u16 n0 n1 n2 n3 n4 n5 my fut".split())
+
+
 def body_C07(ctx):
     # every generated program under the kinds of all twelve names; aliases must give identical real output
     rng = ctx.rng
@@ -247,6 +251,14 @@ def body_C07(ctx):
     # the task-spawning kinds on programs in which nothing fails: a third of them is executed twice, the second time on a new tokio
     # runtime, and must return what it returned the first time (and what the plain kinds return: the reference semantics)
     k2async.body(ctx, kinds=("a1t0s1", "a1t1s1"), n=ctx.n(18, 180), fail_rate=(0, 1))
+    # hygiene: user code inside a macro body that refers to a caller's variable whose name is one the expansion itself writes
+    # (the spawning variants write more of them: thread builders, task helpers) must see the caller's variable in all twelve macros
+    outs = [r.out for r in ctx.k1_reals if r.gen == "ok"]
+    cands = k2.bound_name_candidates(outs, input_words=HYG_INPUT_WORDS)
+    if ctx.quick():
+        cands = [c for c in cands if k2.in_binding_position(c, outs)]
+    nh = k2.run_hygiene_programs(ctx, cands)
+    ctx.out.coverage["hygiene"] = {"candidate_names": cands, "programs": nh}
     for name in sorted(set(n for ns in k2.NAMES.values() for n in ns)):
         ctx.dist["k2:" + name] += 0
 
@@ -315,6 +327,15 @@ def source_audit():
 def scaffold_batch(ctx, kinds, n, **kw):
     import k2
     progs = [k2.gen_scaffold(ctx.rng, "p%d" % i, ctx.rng.pick(kinds), **kw) for i in range(n)]
+    # a few programs far beyond the random sizes (9-14 branches, up to 12 steps): behaviour that changes only from some number of
+    # branches / steps / actions on shows here with a program, not only as a token difference
+    kwb = {k: v for k, v in kw.items() if k not in ("max_branches", "max_depth", "profile", "fail_rate")}
+    fr = kw.get("fail_rate", (1, 6))
+    for i in range(ctx.n(2, 10)):
+        nb = 9 + ctx.rng.below(6)
+        prof = [1 + ctx.rng.below(12 if ctx.rng.chance(1, 3) else 5) for _ in range(nb)]
+        progs.append(k2.gen_scaffold(ctx.rng, "big%d" % i, ctx.rng.pick(kinds), profile=prof,
+                                     fail_rate=(fr[0], fr[1] * 8) if fr[0] else fr, **kwb))
     return progs
 
 
@@ -397,6 +418,11 @@ INVALID = [
     ("a <-> A, B |> , C, D", "operator in front of the `,` between two operands"), ("a |> >>> ^@ x <<< , f <<<", "<<< between the operands of `^@`"),
     ("let (a, b) = x", "non-identifier let pattern"), ("let Some(a) = x |> f", "non-identifier let pattern"),
     ("let _ = x, y", "non-identifier let pattern"), ("a, let (p, q) = b ~|> f", "non-identifier let pattern"),
+    # …also when the `let` is not the branch's first token: behind a stray `~` (dropped by the scan) or an outer attribute
+    ("~ let (a, b) = x |> f", "non-identifier let pattern behind a stray ~"), ("a, ~ let _ = y", "non-identifier let pattern behind a stray ~"),
+    ("~ let Some(v) = p", "non-identifier let pattern behind a stray ~"), ("a |> f, ~ ~ let (p, q) = b ~|> f", "non-identifier let pattern behind ~ ~"),
+    ("#[allow(unused)] let (a, b) = x", "non-identifier let pattern behind an attribute"),
+    ("a, #[cfg(all())] let _ = y |> f", "non-identifier let pattern behind an attribute"),
 ]
 
 
@@ -717,7 +743,20 @@ def body_C12(ctx):
     progs = scaffold_batch(ctx, SYNC_KINDS, n, block_rate=(1, 2), name_rate=(2, 3), max_depth=4, fail_rate=(1, 10))
     run_k2(ctx, progs)
     items = [(ctx.rng.pick(G.KINDS), s, "lets") for s in G.fam_lets()]
-    ctx.k1(mk_cases(items))
+    reals, _ = ctx.k1(mk_cases(items))
+    # implementation-side oracle: every branch written `let [mut] x = …` (also behind a stray `~` or an attribute) binds a name
+    n_let = 0
+    for r in reals:
+        if r.family != "lets" or r.parse != "ok":
+            continue
+        want = sum(1 for b in r.src.split(", ") if re.match(r"^(?:~ |#\[[^\]]*\] )*let ", b))
+        got = r.structure.count("pat :: ")
+        n_let += 1
+        if want != got:
+            ctx.out.violation({"macro_kind": r.kind, "source": r.src, "branches_written_with_let": want, "names_bound": got,
+                               "what": "a branch written with `let` does not bind its name (the `let` stays inside the initial expression)"},
+                              found_input=True, signature="let-not-bound")
+    ctx.out.coverage["let_oracle_cases"] = n_let
     ctx.out.coverage["rule"] = ("2/3 of the branches named (some `mut`), block captures in later steps snapshot every name in scope: the logged "
                                 "snapshots must equal the reference semantics' visible names (latest step result per named branch, wrapped in "
                                 "try macros, also for finished branches; nothing in step 0); results compared with the reference semantics")
@@ -1012,6 +1051,11 @@ def body_C17(ctx):
                            fail_rate=(1, 4), handler_rate=(1, 4), name_rate=(1, 4))
     run_k2(ctx, progs)
     ctx.k1(mk_cases([(p.kind, p.macro_input(), "k2-blocks") for p in progs], start=300000))
+    # the other direction of "no clash": a name the expansion binds must not capture a caller's variable used in the macro body
+    outs = [r.out for r in ctx.k1_reals if r.gen == "ok"]
+    cands = [c for c in k2.bound_name_candidates(outs, input_words=HYG_INPUT_WORDS) if k2.in_binding_position(c, outs)]
+    nh = k2.run_hygiene_programs(ctx, cands)
+    ctx.out.coverage["hygiene"] = {"candidate_names": cands, "programs": nh}
     ctx.out.coverage["rule"] = ("K2 + K1 on programs with block operands on 3/4 of all operators (every operator kind, up to 5 branches); "
                                 "K1 on 12/24-branch and 24-action programs (two-digit indices in every name position) under all 8 configurations; "
                                 "name constructors of the running code vs the model's rendering on indices up to 1234 incl. the historical "
@@ -1033,11 +1077,23 @@ def body_C19(ctx):
                                    "what": "the sequential expansion contains allocation / Clone / Send / 'static / spawn constructs of its own"},
                                   True, "hidden-cost")
     akinds = [(k, s, "async-nonspawn") for s, _ in G.fam_profiles(2, 2) for k in ("a1t0s0", "a1t1s0")]
+    # long chains and many branches too: a cost that only appears from some size on
+    akinds += [(ctx.rng.pick(["a1t0s0", "a1t1s0"]), s, "async-nonspawn-large") for s in G.fam_large()[:4]]
+    akinds += [(k, "a " + " ".join("|> f%d" % i for i in range(n)) + ", b ~|> g", "async-nonspawn-long") for n in (7, 8, 9, 16, 33, 65)
+               for k in ("a1t0s0", "a1t1s0")]
+    akinds += [(ctx.rng.pick(["a1t0s0", "a1t1s0"]), s, "async-nonspawn-random") for (k, s, f) in random_items(ctx, ctx.n(150, 2000), mutated=False)]
     reals2, _ = ctx.k1(mk_cases(akinds, start=200000))
+    async_bad = ("i:Send", "i:Sync", "i:static", "i:spawn", "i:boxed", "i:boxed_local", "i:Arc", "i:Rc", "i:clone", "i:Clone", "i:Vec", "i:to_owned")
     for r in reals2:
-        if r.parse == "ok" and r.gen == "ok" and any(w in r.out.split(" ") for w in ("i:Send", "i:static", "i:spawn")):
-            ctx.out.violation({"macro_kind": r.kind, "source": r.src, "what": "a non-spawning async macro requires Send/'static or spawns"},
-                              True, "async-bounds")
+        if r.parse != "ok" or r.gen != "ok":
+            continue
+        outw, inw = r.out.split(" "), set(r.in_toks.split(" "))
+        hit = [w for w in async_bad if w in outw and w not in inw]
+        n_box = outw.count("i:Box") - r.in_toks.split(" ").count("i:Box")
+        if hit or n_box != 1:
+            ctx.out.violation({"macro_kind": r.kind, "source": r.src[:1500], "tokens": hit, "boxes_written_by_the_expansion": n_box,
+                               "what": "a non-spawning async macro requires Send/'static, spawns, or boxes / clones something besides its one outer "
+                                       "Box::pin"}, True, "async-bounds")
     import k2
     k2.run_cost_programs(ctx)
     ctx.out.coverage["rule"] = ("K1 on sequential configurations with a token oracle on the real output (no Box/clone/Send/'static/format!/"
